@@ -135,8 +135,31 @@ func (b ByteSize) FindLargestFittingUnit() rune {
 	return largestUnitRune
 }
 
+// Finds the largest unit that expresses the size exactly, i.e. without a remainder.
+func (b ByteSize) FindLargestExactUnit() rune {
+	largestUnitSize := int64(1)
+	largestUnitRune := 'B'
+
+	for unitRune, unitSize := range unitRuneMap {
+		if int64(b) == 0 || int64(b)%unitSize != 0 {
+			continue
+		}
+
+		if unitSize < largestUnitSize {
+			continue
+		}
+
+		largestUnitRune = unitRune
+		largestUnitSize = unitSize
+	}
+
+	return largestUnitRune
+}
+
+// The string form reads back (Parse) to exactly the same size: it uses the largest unit
+// that divides the size, so 1536 is "1536B" and not a truncated "1K".
 func (b ByteSize) String() string {
-	unitRune := b.FindLargestFittingUnit()
+	unitRune := b.FindLargestExactUnit()
 	result, _ := b.ToString(unitRune)
 	return result
 }
